@@ -271,6 +271,8 @@ type Case struct {
 	Top     *Node
 	TopCall *serix.TypeSettings
 	TopKind string
+	// ShareRules: NSlU16 and NMapStrU32 are registered with one shared *ArrayRules (and lead the root struct)
+	ShareRules bool
 }
 
 type regEntry struct {
@@ -278,6 +280,8 @@ type regEntry struct {
 	Code *Code
 	// FieldKey is the registered JSON key of a byte array with an object code ("" = serix' default "data")
 	FieldKey string
+	// Shared: the *ArrayRules object this type shares with another registered type (a caller re-using one rules variable)
+	Shared *serix.ArrayRules
 }
 
 var (
@@ -433,6 +437,15 @@ func (c *Case) drawPoolSettings(t *rapid.T) {
 		{NArr3U16{}, "NArr3U16", true}, {NArr2Circ{}, "NArr2Circ", false}} {
 		c.reg[tof(e.v)] = &regEntry{S: drawCollSettings(t, e.name, e.rules, me)}
 	}
+	// one rules object shared by a slice type and a map type (bounds only): what one type's encoder or decoder does
+	// with the rules it was handed must not leak into the other type
+	if c.ShareRules = !c.Cfg.FocusTypeRules && rapid.IntRange(0, 5).Draw(t, "shareRules") == 0; c.ShareRules {
+		ms := c.reg[tof(NMapStrU32(nil))].S
+		ss := &c.reg[tof(NSlU16(nil))].S
+		*ss = Settings{Prefix: ss.Prefix, Min: ms.Min, Max: ms.Max}
+		shared := &serix.ArrayRules{Min: uint(ms.Min), Max: uint(ms.Max)}
+		c.reg[tof(NMapStrU32(nil))].Shared, c.reg[tof(NSlU16(nil))].Shared = shared, shared
+	}
 	// fixed-size arrays of non-bytes: bounds must admit the fixed length or every value is invalid under validation
 	for _, e := range []struct {
 		ty reflect.Type
@@ -449,8 +462,8 @@ func (c *Case) drawPoolSettings(t *rapid.T) {
 		}
 	}
 	// interface implementers: codes are drawn (distinct per interface)
-	shapeCodes := rapid.SliceOfNDistinct(rapid.Uint32Range(0, 255), 5, 5, func(v uint32) uint32 { return v }).Draw(t, "shapeCodes")
-	for i, ty := range []reflect.Type{tof(Circle{}), tof(Rect{}), tof(Poly{}), tof(Dot{}), tof(Addr{})} {
+	shapeCodes := rapid.SliceOfNDistinct(rapid.Uint32Range(0, 255), 6, 6, func(v uint32) uint32 { return v }).Draw(t, "shapeCodes")
+	for i, ty := range []reflect.Type{tof(Circle{}), tof(Rect{}), tof(Poly{}), tof(Dot{}), tof(Addr{}), tof(Unit{})} {
 		c.reg[ty] = &regEntry{Code: &Code{W: 1, V: shapeCodes[i]}}
 	}
 	c.reg[tof(Addr{})].FieldKey = rapid.SampledFrom([]string{"", "pubKeyHash"}).Draw(t, "addrKey")
@@ -468,7 +481,7 @@ func (c *Case) drawPoolSettings(t *rapid.T) {
 	case 0:
 		ss.AtMostOne = 1
 	case 1:
-		ss.MustOccur = []uint32{shapeCodes[rapid.IntRange(0, 4).Draw(t, "must")]}
+		ss.MustOccur = []uint32{shapeCodes[rapid.IntRange(0, 5).Draw(t, "must")]}
 		if ss.Max != 0 && ss.Max < 1 {
 			ss.Max = 1
 		}
@@ -518,12 +531,15 @@ func (c *Case) registerAll() {
 	for _, ty := range types {
 		e := c.reg[ty]
 		ts := e.S.toTypeSettings(e.Code)
+		if e.Shared != nil {
+			ts = ts.WithArrayRules(e.Shared)
+		}
 		if e.FieldKey != "" {
 			ts = ts.WithFieldKey(e.FieldKey)
 		}
 		must(c.API.RegisterTypeSettings(reflect.New(ty).Elem().Interface(), ts))
 	}
-	must(c.API.RegisterInterfaceObjects((*Shape)(nil), (*Circle)(nil), (*Rect)(nil), (*Poly)(nil), Dot{}, (*Addr)(nil)))
+	must(c.API.RegisterInterfaceObjects((*Shape)(nil), (*Circle)(nil), (*Rect)(nil), (*Poly)(nil), Dot{}, (*Addr)(nil), (*Unit)(nil)))
 	must(c.API.RegisterInterfaceObjects((*Payload)(nil), (*PayA)(nil), (*PayB)(nil), (*PayC)(nil)))
 }
 
@@ -602,6 +618,12 @@ func (c *Case) nDot() *Node {
 	return &Node{Kind: KStruct, T: ty, Name: "Dot", Code: c.regCode(ty), Fields: []*Field{field("X", 0, leaf(KInt8, numTypes[KInt8], ""))}}
 }
 
+// nUnitPtr is the marker object without fields (its encoding ends with its object code).
+func (c *Case) nUnitPtr() *Node {
+	ty := tof(Unit{})
+	return &Node{Kind: KPtr, T: reflect.PointerTo(ty), Elem: &Node{Kind: KStruct, T: ty, Name: "Unit", Code: c.regCode(ty)}}
+}
+
 // nAddrPtr is the pointer to a byte array with an object code (the only form of such arrays the JSON form reads back).
 func (c *Case) nAddrPtr() *Node {
 	ty := tof(Addr{})
@@ -610,7 +632,7 @@ func (c *Case) nAddrPtr() *Node {
 
 func (c *Case) nShape() *Node {
 	return &Node{Kind: KIface, T: reflect.TypeOf((*Shape)(nil)).Elem(), Name: "Shape",
-		Impls: []*Node{c.nCirclePtr(), c.nRectPtr(), c.nPolyPtr(), c.nDot(), c.nAddrPtr()}}
+		Impls: []*Node{c.nCirclePtr(), c.nRectPtr(), c.nPolyPtr(), c.nDot(), c.nAddrPtr(), c.nUnitPtr()}}
 }
 
 func (c *Case) nPayload(depth int) *Node {
@@ -839,6 +861,9 @@ func (c *Case) genStruct(t *rapid.T, depth int, label string) *Node {
 	c.seq++
 	id := c.seq
 	nf := rapid.IntRange(1, c.Cfg.MaxFields).Draw(t, label+".nfields")
+	if c.ShareRules && depth == 0 && nf < 2 {
+		nf = 2
+	}
 	n := &Node{Kind: KStruct}
 	var sfs []reflect.StructField
 	usedKeys := map[string]bool{"type": true}
@@ -867,7 +892,14 @@ func (c *Case) genStruct(t *rapid.T, depth int, label string) *Node {
 		if c.Cfg.FocusTypeRules && depth == 0 && i == 0 {
 			fieldKind = 18
 		}
+		if c.ShareRules && depth == 0 && i < 2 {
+			fieldKind = 19 + i
+		}
 		switch fieldKind {
+		case 19:
+			f.N = c.nNamedSlice(tof(NSlU16(nil)), "NSlU16", leaf(KUint16, numTypes[KUint16], ""))
+		case 20:
+			f.N = c.nNamedMap(tof(NMapStrU32(nil)), "NMapStrU32", c.nStr(NStrA(""), "NStrA"), leaf(KUint32, numTypes[KUint32], ""))
 		case 18:
 			if rapid.Bool().Draw(t, fl+".payslice") {
 				f.N = c.nNamedSlice(tof(NSlPay(nil)), "NSlPay", c.nPayload(0))
